@@ -3254,10 +3254,9 @@ impl RelationalEngine {
                 });
             }
 
-            // Index gives us row IDs - take only what we need
-            let limited_ids: Vec<u64> = row_ids.into_iter().take(target_count).collect();
-
-            let indices: Vec<usize> = limited_ids
+            // The index yields candidates in index order and before the re-check, so the
+            // offset/limit window can only be cut after filtering and sorting by row id.
+            let indices: Vec<usize> = row_ids
                 .iter()
                 .filter_map(|id| usize::try_from(id.saturating_sub(1)).ok())
                 .collect();
